@@ -522,6 +522,39 @@ def pmap(fn, items, workers=None, chunksize=1):
         yield val
 
 
+def pmap_stream(fn, iterable, workers=None, window=None):
+    """like pmap but consumes `iterable` lazily with a bounded number of items in flight (results in submission order)"""
+    import collections
+    workers = workers or NCPU
+    if os.environ.get('MC_SERIAL') or workers == 1:
+        for it in iterable:
+            tag, val = _call((fn, it))
+            if tag != 'ok':
+                raise Machinery(val)
+            yield val
+        return
+    pool = _get_pool(workers)
+    window = window or workers * 2
+    pending = collections.deque()
+    it = iter(iterable)
+    done = False
+    while True:
+        while not done and len(pending) < window:
+            try:
+                item = next(it)
+            except StopIteration:
+                done = True
+                break
+            pending.append(pool.apply_async(_call, ((fn, item),)))
+        if not pending:
+            return
+        tag, val = pending.popleft().get()
+        if tag != 'ok':
+            _drop_pool()
+            raise Machinery(val)
+        yield val
+
+
 _POOL = None
 
 
